@@ -34,6 +34,8 @@ class TokenBucketLimiter:
         self._tokens_per_period = tokens_per_period
         self._period_duration = period_duration
         self._tokens = initial_tokens
+        # Bucket capacity: the tokens for a full period, or the initial load if that is larger.
+        self._capacity = max(tokens_per_period, initial_tokens)
         self._last = time.time()
 
     @property
@@ -56,8 +58,8 @@ class TokenBucketLimiter:
         lapse = now - self._last
         self._last = now
         self._tokens += lapse / self._period_duration * self._tokens_per_period
-        if self._tokens > self._tokens_per_period:
-            self._tokens = self._tokens_per_period
+        if self._tokens > self._capacity:
+            self._tokens = self._capacity
 
         # Consume one token.
         self._tokens -= 1
